@@ -103,6 +103,8 @@ ControlOps == {"Root", "Commit", "Reload", "Copy", "CopySwap", "Finalise", "Flus
 DynPrelude == CASE Alpha = "slots" -> <<Rec("SetState", 1, 0, 5, 1, 0, 0), Rec("AddBalance", 2, 0, 1, 0, 0, 0), Rec("Commit", 0, 0, 0, 0, 0, 0)>>
                 [] Alpha = "old"   -> <<Rec("AddBalance", 2, 0, 1, 0, 0, 0), Rec("Commit", 0, 0, 0, 0, 0, 0)>>
                 [] Alpha = "recs2" -> <<Rec("AddRecord", 0, 1, -1, 0, 0, 1), Rec("AddRecord", 0, 1, -1, 0, 0, 2), Rec("AddRecord", 0, 1, -1, 0, 0, 1)>>
+                [] Alpha = "lazy"  -> <<Rec("CreateValidator", 0, 1, 15, 0, 0, 0), Rec("Delegate", 1, 1, 7, 0, 0, 0), Rec("AddWithdraw", 0, 0, 0, 0, 1, 0),
+                                        Rec("AddRecord", 0, 1, 9, 0, 0, 1), Rec("AddRel", 1, 1, 0, 0, 0, 0)>>
                 [] Alpha = "reset" -> <<Rec("AddRecord", 0, 1, 9, 0, 0, 1), Rec("AddRel", 1, 1, 0, 0, 0, 0), Rec("Commit", 0, 0, 0, 0, 0, 0)>>
                 [] Alpha = "blind" -> <<Rec("CreateValidator", 0, 1, 15, 0, 0, 0), Rec("AddBalance", 2, 0, 1, 0, 0, 0), Rec("Reload", 0, 0, 0, 0, 0, 0)>>
                 [] OTHER -> <<>>
@@ -209,6 +211,11 @@ ResetStaking ==
 ReadRecord(a, v) ==
    /\ Tick(Rec("ReadRecord", a, v, 0, 0, 0, 0))
    /\ UNCHANGED <<live, tries, blobs, book, node, aux, clean, copyOk, failed>>
+\* a read of ONE lazily loaded component of the object (1 statistics, 2 validator record / index, 3 withdraw queue,
+\* 4 pending relationships, 5 staking record, 6 delegation list): no effect on content
+ReadComp(c) ==
+   /\ Tick(Rec("ReadComp", 0, 0, c, 0, 0, 0))
+   /\ UNCHANGED <<live, tries, blobs, book, node, aux, clean, copyOk, failed>>
 AddRel(a, v) ==
    /\ Tick(Rec("AddRel", a, v, 0, 0, 0, 0))
    /\ rel' = rel \cup {<<a, v>>}
@@ -244,8 +251,16 @@ RootEffect ==
    /\ dAcc' = {} /\ dVal' = {} /\ dRec' = {} /\ dRel' = FALSE
    /\ UNCHANGED <<wq, rec, rel>>
 
+\* Root computations carry, in generated behaviours, a TAG: the content the model says has been WRITTEN (after the normalisation
+\* the root computation performs).  The monitor files the real roots under it: "same content ... same roots regardless of the
+\* order or grouping in which the content was written" -- also when the real object would no longer SHOW that content.
+\* Flag b = 2 ("nopre"): the driver takes no dump BEFORE the root computation (that dump is a read; reads fill lazy caches).
+TagOf == ToString(<<NormAcc(acc, jd), NormVal(val, dVal), wq, rec, rel>>)
+RootFlags == IF GenMode = "leaf" /\ Len(hist) >= Len(DynPrelude)
+             THEN (IF Alpha = "lazy" THEN {2} ELSE IF Alpha = "rich" THEN {0, 2} ELSE {0}) ELSE {0}
+TickC(r, B) == TickB(r @@ [tag |-> IF GenMode = "leaf" THEN TagOf ELSE ""], B)
 Root ==
-   /\ Tick(Rec("Root", 0, 0, 0, 0, 0, 0))
+   /\ TickC(Rec("Root", 0, 0, 0, 0, 0, 0), RootFlags)
    /\ RootEffect
    /\ oDirty' = oDirty \cup (dAcc \ nod) /\ nod' = {}
    /\ clean' = "root" /\ copyOk' = TRUE
@@ -269,7 +284,7 @@ Readable == \A a \in Accts : /\ (tacc[a].code = 0 \/ tacc[a].code \in blobs.code
                              /\ (tacc[a].to = {} \/ tacc[a].to \in blobs.dl)
                              /\ ((tacc[a].s1 = 0 /\ tacc[a].s2 = 0) \/ <<tacc[a].s1, tacc[a].s2>> \in blobs.st)
 Commit ==
-   /\ Tick(Rec("Commit", 0, 0, 0, 0, 0, 0))
+   /\ TickC(Rec("Commit", 0, 0, 0, 0, 0, 0), RootFlags)
    /\ CommitEffect
    /\ clean' = "commit" /\ copyOk' = TRUE
    /\ UNCHANGED failed
@@ -278,7 +293,7 @@ ReadableP == \A a \in Accts : /\ (tacc'[a].code = 0 \/ tacc'[a].code \in blobs'.
                               /\ (tacc'[a].to = {} \/ tacc'[a].to \in blobs'.dl)
                               /\ ((tacc'[a].s1 = 0 /\ tacc'[a].s2 = 0) \/ <<tacc'[a].s1, tacc'[a].s2>> \in blobs'.st)
 Reload ==
-   /\ TickB(Rec("Reload", 0, 0, 0, 0, 0, 0), IF LastBlindCopy THEN {1} ELSE {0})
+   /\ TickC(Rec("Reload", 0, 0, 0, 0, 0, 0), IF LastBlindCopy THEN {1} ELSE RootFlags)
    /\ CommitEffect
    /\ clean' = "commit" /\ copyOk' = TRUE
    /\ failed' = ~ReadableP
@@ -386,11 +401,16 @@ PreludeStep ==
      [] p.op = "AddRecord"  -> AddRecord(p.a, p.v, p.h, p.d)
      [] p.op = "Commit"     -> Commit
      [] p.op = "AddRel"     -> AddRel(p.a, p.v)
+     [] p.op = "Delegate"   -> Delegate(p.v, p.d)
+     [] p.op = "AddWithdraw" -> AddWithdraw(p.r)
      [] p.op = "Reload"     -> Reload
      [] p.op = "CreateValidator" -> CreateValidator(p.v, p.d)
      [] OTHER -> FALSE
 NextBlind ==     \* a freshly loaded state copied and the copy committed, with and without reads in between
    \/ CopyStep("CopySwap") \/ CopyStep("Copy") \/ Reload \/ Commit \/ Root \/ Deposit(1, 7)
+NextLazy ==      \* every lazily loaded component populated and committed; fresh opens, unrelated writes, root computations with NO
+                 \* dump before them, and reads of single components in between: each component is left untouched in turn
+   \/ Reload \/ Commit \/ AddBalance(2, 1) \/ (\E c \in 1..6 : ReadComp(c))
 NextReset ==     \* one object carried over a staking-period boundary: records flushed / committed / reloaded and read, the reset, the
                  \* same key recorded again
    \/ AddRecord(0, 1, 2, 4) \/ ReadRecord(0, 1)
@@ -419,12 +439,12 @@ NextRich ==
    \/ \E a \in Accts, v \in Vals : AddRel(a, v)
    \/ Control \/ Reload \/ Finalise \/ CopyStep("CopySwap") \/ Flush \/ GC \/ Restart
    \/ \E k \in 1..4 : ReloadOld(k)
-   \/ ResetStaking \/ (\E a \in {0, 1}, v \in Vals : ReadRecord(a, v))
+   \/ ResetStaking \/ (\E a \in {0, 1}, v \in Vals : ReadRecord(a, v)) \/ (\E c \in 1..6 : ReadComp(c))
    \/ \E a \in {0, 1}, v \in Vals, h \in {1, 2}, d \in {-1, 4} : AddRecordOther(a, v, h, d)
 
 Next == /\ Bounded
         /\ IF InPrelude THEN PreludeStep ELSE IF LastBlindCopy THEN Reload ELSE
-           CASE Alpha = "blind" -> NextBlind [] Alpha = "reset" -> NextReset [] Alpha = "acct" -> NextAcct [] Alpha = "macct" -> (NextAcct \/ Reload) [] Alpha = "val" -> NextVal [] Alpha = "recs" -> NextRecs [] Alpha = "disk" -> NextDisk [] Alpha = "deleg2" -> NextDeleg2
+           CASE Alpha = "blind" -> NextBlind [] Alpha = "lazy" -> NextLazy [] Alpha = "reset" -> NextReset [] Alpha = "acct" -> NextAcct [] Alpha = "macct" -> (NextAcct \/ Reload) [] Alpha = "val" -> NextVal [] Alpha = "recs" -> NextRecs [] Alpha = "disk" -> NextDisk [] Alpha = "deleg2" -> NextDeleg2
              [] Alpha = "slots" -> NextSlots [] Alpha = "old" -> NextOld [] Alpha = "recs2" -> NextRecs2 [] OTHER -> NextRich
 Spec == Init /\ [][Next]_vars
 
